@@ -33,13 +33,16 @@ MISSED_FIRST = {  # seeds not reported by the checks as they stood when the seed
 }
 
 
+ROUND = os.environ.get("SEED_ROUND", "")      # e.g. "r2" -> ids C01-r2A
+
+
 def main():
     only = sys.argv[1:]
     for d in sorted(os.listdir(SEED)):
         if not re.fullmatch(r"C\d\d", d):
             continue
-        for x in ("A", "B"):
-            sid = "%s-%s" % (d, x)
+        for x in ("A", "B", "C"):
+            sid = "%s-%s%s" % (d, ROUND, x)
             if only and sid not in only and d not in only:
                 continue
             src = os.path.join(SEED, d, "out", x)
